@@ -228,7 +228,7 @@ func genScanner(repo string, jerrConsts map[string]string) string {
 	for i, s := range t.states {
 		fmt.Fprintf(&b, "Definition st_%s : state := %d.\n", s, i)
 	}
-	b.WriteString("\nDefinition prog_table : list (string * list stmt) := [\n")
+	b.WriteString("\nDefinition prog_table : list (string * stmt) := [\n")
 	for i, s := range t.states {
 		fd := t.funcs[s]
 		env := &trEnv{cname: paramName(fd, 1), sname: paramName(fd, 0)}
@@ -336,9 +336,9 @@ func leaf(s string) st { return st{kind: s} }
 
 func stmtList(l []st, ind int) string {
 	if len(l) == 0 {
-		return "[]"
+		return "SSkip"
 	}
-	pad := strings.Repeat(" ", ind)
+	pad := strings.Repeat(" ", ind+6)
 	var parts []string
 	for _, s := range l {
 		if s.isIf {
@@ -347,7 +347,7 @@ func stmtList(l []st, ind int) string {
 			parts = append(parts, s.kind)
 		}
 	}
-	return "[" + strings.Join(parts, ";\n"+pad+" ") + "]"
+	return "block [" + strings.Join(parts, ";\n"+pad+" ") + "]"
 }
 
 func (t *scannerTr) stateRef(e ast.Expr) (string, bool) {
